@@ -16,7 +16,7 @@ import time
 
 VERIF = os.path.dirname(os.path.abspath(__file__))
 ENV = {"PYTHONHASHSEED": "0", "OPENBLAS_NUM_THREADS": "1", "OMP_NUM_THREADS": "1", "MKL_NUM_THREADS": "1",
-       "MOLGRI_VERIF": "1", "PYTHONDONTWRITEBYTECODE": "1", "MPLBACKEND": "agg"}
+       "MOLGRI_VERIF": "1", "PYTHONDONTWRITEBYTECODE": "1", "MPLBACKEND": "agg", "PYTHONUTF8": "1"}
 
 
 def main():
